@@ -198,7 +198,7 @@ pub fn scenario(name: &str, params: &Value) -> Scenario {
                 10 => vec![Prop::str(26, &s(l))],
                 11 => vec![Prop::str(28, &s(l))],
                 12 => vec![Prop::str(21, &s(l)), Prop::bin(22, s(l).as_bytes())],
-                _ => vec![Prop::str(31, "multi \u{00e9}\u{4e2d}\u{1f600}"), Prop::user("\u{4e2d}", "\u{1f600}")],
+                _ => vec![Prop::str(31, "\u{feff}multi \u{00e9}\u{4e2d}\u{1f600}"), Prop::user("\u{feff}\u{4e2d}", "\u{feff}")],
             };
             let mut sys = Sys::new("C02", &name, chz);
             sys.params = params.clone();
@@ -393,7 +393,7 @@ pub fn scenario(name: &str, params: &Value) -> Scenario {
                     dup,
                     qos,
                     retain,
-                    topic: "s/\u{00e9}/x".into(),
+                    topic: "\u{feff}s/\u{00e9}/x".into(),
                     pid: if qos > 0 { Some(pid) } else { None },
                     props,
                     payload: (0..psize).map(|i| (i % 251) as u8).collect(),
@@ -441,8 +441,9 @@ pub fn scenario(name: &str, params: &Value) -> Scenario {
             let l = lens[chz.choose(lens.len())];
             let multibyte = chz.choose(2) == 1;
             let st = if multibyte {
-                let pat = ['\u{00e9}', '\u{4e2d}', '\u{1f600}'];
-                (0..(l / 3).min(20000)).map(|i| pat[i % 3]).collect::<String>()
+                // (U+FEFF is an ordinary character in MQTT strings: never a byte order mark to be stripped)
+    let pat = ['\u{feff}', '\u{00e9}', '\u{4e2d}', '\u{1f600}'];
+                (0..(l / 3).min(20000)).map(|i| pat[i % 4]).collect::<String>()
             } else {
                 s(l)
             };
